@@ -29,6 +29,9 @@ def quiet_stdio():
 
 
 def _init(quiet):
+    import warnings
+
+    warnings.simplefilter("ignore")
     os.environ.setdefault("MPLBACKEND", "Agg")
     if quiet:
         quiet_stdio()
